@@ -485,3 +485,28 @@ Theorem runtime_percent_copy_paste_refuted :
     distribute_slashed total pb n = Fatal.
 Proof. exact rt_percent_copy_paste_refuted. Qed.
 Print Assumptions runtime_percent_copy_paste_refuted.
+
+(* ---- fee checks of transaction delivery ---- *)
+
+(* Fee.GasPrice is total: gas 0 gives price 0, never a division *)
+Theorem gas_price_is_total :
+  forall amount gas, exists p, gas_price amount gas = Ok p /\ (gas = 0 -> p = 0).
+Proof. exact gas_price_total. Qed.
+Print Assumptions gas_price_is_total.
+
+(* the minimum gas price check never fails fatally for any fee shape and any minimum *)
+Theorem process_tx_fee_checks_total :
+  forall min_price fee, is_fatal (fee_check min_price fee) = false.
+Proof. exact fee_check_total. Qed.
+Print Assumptions process_tx_fee_checks_total.
+
+Theorem process_tx_zero_gas_fee_rejected :
+  forall min_price amount, min_price <> 0 -> fee_check min_price (Some (amount, 0)) = Ok false.
+Proof. exact fee_check_zero_gas. Qed.
+Print Assumptions process_tx_zero_gas_fee_rejected.
+
+(* with && instead of || in GasPrice's guard a fee {amount > 0, gas 0} divides by zero (a panic) *)
+Theorem gas_price_guard_with_and_refuted :
+  forall amount, amount <> 0 -> gas_price_and amount 0 = Fatal.
+Proof. exact gas_price_and_refuted. Qed.
+Print Assumptions gas_price_guard_with_and_refuted.
